@@ -139,7 +139,7 @@ def view_diff(expected, event):
         d["res"] = [expected.get("res"), event.get("res")]
     ev = expected.get("v", {})
     rv = event.get("v", {})
-    for k in ("ex", "get", "lk", "ec", "blob", "list", "expd", "srch", "garb"):
+    for k in ("ex", "get", "lk", "ec", "blob", "list", "expd", "srch", "garb", "cnrs"):
         if ev.get(k) != rv.get(k):
             d[k] = [ev.get(k), rv.get(k)]
     if event.get("ev") == "List":
